@@ -645,7 +645,9 @@ func (r *runner) schedule(fr *faultRec, finals map[int]int) []string {
 			resp := fmt.Sprintf("EResumeResp %d RespOk", x.Label)
 			if !resumesLater(x.Label, wi) && lastCut(x.Label) {
 				r.closedBefore[x.Label] = true
-				if x.Kind == "resumedown" && cb.Conflicted(x.Label) > 0 {
+				if x.Kind == "resumedown" && cb.ConflictsOn(x.Label, w.gen) > 0 && cb.ConflictsOn(x.Label, w.gen) == repeats[x.Label] {
+					// every request of this downstream on this incarnation was answered RESUME_REQUEST_CONFLICT and the
+					// stream ended closed: it did not retry (the F46 shape)
 					// the broker answered RESUME_REQUEST_CONFLICT and the downstream did not retry (finding): NOT excused
 					resp = fmt.Sprintf("EResumeResp %d RespConflict", x.Label)
 					r.downConflict = true
@@ -1098,7 +1100,7 @@ func runCase(c *caseIn) (res result) {
 		"reconnected": reconn, "resumed": resumed, "stream_closed": sclosed, "rets": rets, "finals": finals, "excused": excL, "events": r.evs,
 		"unscripted_outages": r.unscripted}
 	// also: an outage that began after the last settle and whose redial is still running at the snapshot
-	res.noisy = r.cb.Gens() != 1+r.accounted || disc != reconn
+	res.noisy = r.cb.Gens() != 1+r.accounted || disc != reconn || int(r.tokens.Load()) != len(connects)
 	res.nt = reconn >= 1 && len(streams) >= 1 && len(resumes) >= 1
 	res.unscripted = r.unscripted
 	return
